@@ -1,12 +1,17 @@
 package main
 
-import "time"
+import (
+	"strings"
+	"time"
+)
 
 func init() {
 	register(&PropSpec{
 		ID: "C19",
 		Jobs: func(tier string, seed int64) []Job {
-			inits := []string{"a", "x", "s", "p", "nil", "[a,b]", "[0,1,2,3,4,5,6,7,8,a]", "{a:b}", "{1:1,2:2,3:3,4:4,5:a}", "func(y){y+a}", "[x, [a]]", "{1:x, 2:[a]}", "(n => (y => y+n))(a)"}
+			inits := []string{"a", "x", "s", "p", "nil", "[a,b]", "[0,1,2,3,4,5,6,7,8,a]", "{a:b}", "{1:1,2:2,3:3,4:4,5:a}", "func(y){y+a}", "[x, [a]]", "{1:x, 2:[a]}", "(n => (y => y+n))(a)",
+				// large-representation maps with few entries
+				"{1:a,1:b,1:c,1:a,1:b}", "(func(){m={1:1,2:2,3:3,4:4,5:a}; del(m[5]); del(m[4]); m})()", "(func(){m=[0,1,2,3,4,5,6,7,8,a]; m[0:2]})()"}
 			muts := []string{
 				"K = b", "K := b", "K = [b]", "K = y", "K++", "K--", "++K", "--K", "K[0] = b", "K[-1] = b", "K[c] = b", "K[1] = b", "K.k = b", "K[5] = b",
 				"del(K[0])", "del(K[1])", "del(K[5])", "del(K.k)", "for K = 3 {1}", "for K = [b, c] {1}", "for K = 0:2 {K}", "for K = k0 {K}",
@@ -26,11 +31,21 @@ func init() {
 					}
 				}
 			}
+			// every spelling of a constant name: the name is substituted for K in a sample of the skeletons
+			for _, name := range []string{"K_", "MAX_", "A_B_", "K9", "K__", "K_1", "X"} {
+				for _, in := range []string{"a", "[a,b]", "{a:b}"} {
+					for i, m := range muts {
+						if i%3 == 0 || strings.HasPrefix(m, "K = b") || strings.HasPrefix(m, "K++") || strings.HasPrefix(m, "for K") {
+							jobs = append(jobs, Job{Prop: "C19", Pkg: "eval", Func: "VerifConstant", Args: []string{in, m, "reg", name}, MaxDec: 600})
+						}
+					}
+				}
+			}
 			return jobs
 		},
 		Budget: map[string]time.Duration{"quick": 6 * time.Minute, "thorough": 40 * time.Minute},
 		Reach:  []string{"mutation attempt refused"},
-		Bounds: map[string]interface{}{"constant_values": "Integer, Float, String (2 bytes), Boolean, nil, small array, 10-element array, small map, 5-pair map, function - scalar contents symbolic",
+		Bounds: map[string]interface{}{"constant_names": "K for every skeleton; K_, MAX_, A_B_, K9, K__, K_1, X for a third of them", "constant_values": "Integer, Float, String (2 bytes), Boolean, nil, small array, 10-element array, small map, 5-pair map, function - scalar contents symbolic",
 			"mutation_attempts": "43 programs: = := ++ -- (prefix and postfix), index and dot assignment, del of an element, use as loop variable (4 loop forms) and as parameter name, assignment / index assignment / ++ / del from nested functions, closures and loops, mutation through a copy, a function argument or a container holding the constant",
 			"registers":         "on; off for a third of the skeletons (all in thorough)"},
 		Outside: []string{"sequences of more than one mutation program", "extension functions that mutate their argument"},
